@@ -578,6 +578,11 @@ pub fn apply_op<T: Source + std::hash::Hash + PartialEq + Eq + 'static>(
 
 thread_local! {
   #[allow(clippy::type_complexity)]
+  static NODE_POOL: std::cell::RefCell<Option<Vec<(Spec, (BoxSource, usize))>>> = const { std::cell::RefCell::new(None) };
+}
+
+thread_local! {
+  #[allow(clippy::type_complexity)]
   static CACHED_POOL: std::cell::RefCell<Option<Vec<(Spec, (BoxSource, usize))>>> = const { std::cell::RefCell::new(None) };
 }
 
@@ -588,12 +593,31 @@ thread_local! {
 /// when a bundler uses one cached module source at several places.
 pub fn share_cached_instances(on: bool) {
   CACHED_POOL.with(|p| *p.borrow_mut() = if on { Some(Vec::new()) } else { None });
+  NODE_POOL.with(|p| *p.borrow_mut() = if on { Some(Vec::new()) } else { None });
 }
 
 /// Number of `Cached` nodes that were answered from the pool since sharing
 /// was switched on.
 pub fn shared_cached_hits() -> usize {
   CACHED_POOL.with(|p| p.borrow().as_ref().map_or(0, |v| v.iter().map(|e| e.1 .1).sum()))
+}
+
+thread_local! {
+  static LAST_NODE_HITS: std::cell::Cell<usize> = const { std::cell::Cell::new(0) };
+}
+
+/// Remember the node-pool hits of the build that just ended.
+pub fn note_node_hits() {
+  LAST_NODE_HITS.with(|c| c.set(shared_node_hits()));
+}
+
+pub fn shared_node_hits_last() -> usize {
+  LAST_NODE_HITS.with(|c| c.get())
+}
+
+/// The same for the other stateful nodes (raw leaves over bytes, ReplaceSource).
+pub fn shared_node_hits() -> usize {
+  NODE_POOL.with(|p| p.borrow().as_ref().map_or(0, |v| v.iter().map(|e| e.1 .1).sum()))
 }
 
 fn pool_cached(inner: &Spec, built: &BoxSource) {
@@ -617,11 +641,49 @@ pub fn build_box(spec: &Spec) -> BoxSource {
 }
 
 pub fn build_with(spec: &Spec, wrap: Wrap) -> Built {
+  // instance sharing (see `share_cached_instances`) also covers the other
+  // nodes with interior state (lazily decoded buffers, ReplaceSource's sorted
+  // order): an equal node built earlier is used again as the same object
+  let stateful = matches!(
+    spec,
+    Spec::Raw { .. } | Spec::RawBytes { .. } | Spec::RawBuffer { .. } | Spec::Replace { .. }
+  );
+  if stateful {
+    let hit = NODE_POOL.with(|p| {
+      let mut p = p.borrow_mut();
+      p.as_mut().and_then(|v| {
+        v.iter_mut().find(|(k, _)| k == spec).map(|e| {
+          e.1 .1 += 1;
+          e.1 .0.clone()
+        })
+      })
+    });
+    if let Some(b) = hit {
+      return Built::Other(b);
+    }
+  }
+  let built = build_node(spec, wrap);
+  if stateful {
+    if let Built::Other(b) = &built {
+      NODE_POOL.with(|p| {
+        if let Some(v) = p.borrow_mut().as_mut() {
+          v.push((spec.clone(), (b.clone(), 0)));
+        }
+      });
+    }
+  }
+  built
+}
+
+fn build_node(spec: &Spec, wrap: Wrap) -> Built {
   let other = |b: BoxSource| Built::Other(wrap(spec, b));
   match spec {
     // the constructor variant (owned / borrowed argument) is picked by the
     // length of the text so that every public constructor is exercised
-    Spec::Raw { text } => other(if text.len() % 2 == 0 {
+    Spec::Raw { text } => other(if text.len() % 4 == 3 && text.len() < 64 && !cfg!(miri) {
+      // needs a 'static str: leak a few bytes (not under Miri, which reports leaks)
+      RawSource::from_static(Box::leak(text.clone().into_boxed_str())).boxed()
+    } else if text.len() % 2 == 0 {
       RawSource::from(text.clone()).boxed()
     } else {
       RawSource::from(text.as_str()).boxed()
@@ -631,7 +693,9 @@ pub fn build_with(spec: &Spec, wrap: Wrap) -> Built {
     } else {
       RawSource::from(bytes.as_slice()).boxed()
     }),
-    Spec::RawString { text } => other(if text.len() % 2 == 0 {
+    Spec::RawString { text } => other(if text.len() % 4 == 3 && text.len() < 64 && !cfg!(miri) {
+      RawStringSource::from_static(Box::leak(text.clone().into_boxed_str())).boxed()
+    } else if text.len() % 2 == 0 {
       RawStringSource::from(text.clone()).boxed()
     } else {
       RawStringSource::from(text.as_str()).boxed()
